@@ -84,6 +84,9 @@ var (
 	scopeVariants = []string{"openid", "openid profile", "openid email profile", "openid email phone"}
 )
 
+// idForges: how an ID token reference is presented ("" = as issued).
+var idForges = []string{"", "", "", "i-expired", "i-expired", "i-untrusted", "i-otheriss"}
+
 func genRef(t *rapid.T, label string, forgedOutOf10 int) Ref {
 	r := Ref{Grant: rapid.IntRange(0, 5).Draw(t, label+"g")}
 	r.Which = rapid.SampledFrom([]string{"", "", "", "refresh"}).Draw(t, label+"w")
@@ -156,6 +159,13 @@ func genOp(t *rapid.T, i int, hosts bool) Op {
 		if rapid.IntRange(0, 2).Draw(t, label+"hasactor") == 0 {
 			a := genRef(t, label+"actor", 4)
 			o.Actor = &a
+			if rapid.IntRange(0, 4).Draw(t, label+"actorid") == 0 {
+				o.Actor.Which, o.Actor.Forge = "id", rapid.SampledFrom(idForges).Draw(t, label+"actoridforge")
+			}
+		}
+		if rapid.IntRange(0, 3).Draw(t, label+"subjid") == 0 {
+			// the grant's ID token as subject (declared as id_token): genuine, or re-signed expired / untrusted / foreign issuer
+			o.Tok.Which, o.Tok.Forge = "id", rapid.SampledFrom(idForges).Draw(t, label+"subjidforge")
 		}
 	}
 	return o
@@ -226,9 +236,16 @@ type presented struct {
 	class string // genuine | alias | none | other-issuer
 	base  *mtok  // the token the string was derived from (nil for raw garbage)
 	forge string
+	// ID token presented as exchange input: verdict decided at resolve time (the model has no record per ID token)
+	id    bool
+	idv   int
+	idwhy string
 }
 
 func (p presented) ttype() string {
+	if p.id {
+		return "urn:ietf:params:oauth:token-type:id_token"
+	}
 	if (p.tok != nil && p.tok.kind == "refresh") || (p.tok == nil && p.base != nil && p.base.kind == "refresh") {
 		return "urn:ietf:params:oauth:token-type:refresh_token"
 	}
@@ -236,6 +253,9 @@ func (p presented) ttype() string {
 }
 
 func (p presented) kind() string {
+	if p.id {
+		return "idtoken"
+	}
 	if p.base != nil {
 		return p.base.kind
 	}
@@ -338,6 +358,9 @@ func (e *env) resolve(r Ref, h int) presented {
 		return raw()
 	}
 	g := e.grants[r.Grant%len(e.grants)]
+	if r.Which == "id" {
+		return e.resolveID(r, g, h, raw)
+	}
 	if r.Which == "refresh" && g.refresh != nil && (r.Forge == "" || r.Forge == "r-mangle") {
 		rt := g.refresh
 		if r.Forge == "r-mangle" {
@@ -474,9 +497,58 @@ func (e *env) resolve(r Ref, h int) presented {
 	return p
 }
 
+// resolveID presents the ID token of grant g at host h. As issued: must be honoured while the grant it came from is
+// untouched (nothing revoked, session not ended, not expired) - once any of that happened the statement does not say
+// what becomes of the ID token (grey). Re-signed variants (harness holds the provider's key): expired an hour ago,
+// signed by an untrusted key, naming a foreign issuer => must be refused.
+func (e *env) resolveID(r Ref, g *grant, h int, raw func() presented) presented {
+	m, ok := jwtPayload(g.idToken)
+	if g.idToken == "" || !ok || g.access == nil {
+		return raw()
+	}
+	p := presented{id: true, base: g.access, forge: r.Forge, class: "none"}
+	now := time.Now()
+	resign := func(key *vkit.KeyInfo, mut func(map[string]any)) string {
+		c := map[string]any{}
+		for k, v := range m {
+			c[k] = v
+		}
+		mut(c)
+		b, _ := json.Marshal(c)
+		return vkit.MustSignJWT(e.c.Alg, "sig1", key, b)
+	}
+	switch r.Forge {
+	case "i-expired":
+		p.str = resign(vkit.Key(e.signKey), func(c map[string]any) {
+			c["exp"], c["iat"] = now.Add(-time.Hour).Unix(), now.Add(-2*time.Hour).Unix()
+		})
+		p.idv, p.idwhy = -1, "id-token-expired"
+	case "i-untrusted":
+		p.str = resign(vkit.Key(e.badKey), func(c map[string]any) {})
+		p.idv, p.idwhy = -1, "id-token-untrusted-key"
+	case "i-otheriss":
+		p.str = resign(vkit.Key(e.signKey), func(c map[string]any) { c["iss"] = "https://evil.example.net" })
+		p.idv, p.idwhy = -1, "id-token-other-issuer"
+	default:
+		p.str, p.forge = g.idToken, ""
+		switch {
+		case g.host != e.ags[h].Host:
+			p.idv, p.idwhy = -1, "id-token-other-issuer"
+		case !g.access.live() || (g.refresh != nil && !g.refresh.live()):
+			p.idv, p.idwhy = 0, "id-token-of-touched-grant"
+		default:
+			p.idv, p.idwhy = 1, "live"
+		}
+	}
+	return p
+}
+
 // readVerdict: must this string be honoured at a read endpoint (userinfo / introspection / exchange input) of host h?
 // +1 must-accept, -1 must-reject, 0 grey.
 func (e *env) readVerdict(p presented, h int, accessOnly bool) (int, string) {
+	if p.id {
+		return p.idv, p.idwhy
+	}
 	if p.tok == nil {
 		if p.forge != "" {
 			return -1, "forged:" + p.forge
